@@ -11,7 +11,7 @@ The reference model (valid_args) decides what must be rejected; for calls outsid
 pivots, parameters of solves) the probe generator states the expectation from the property text.
 A probe the property calls invalid must: not crash, return non-zero/NULL, leave DUMPALL identical, and the
 follow-up must behave as the follow-up of the untouched problem (latent corruption)."""
-import sys, os
+import sys, os, json
 sys.path.insert(0, os.path.dirname(os.path.abspath(__file__)))
 from lib import *
 from store_common import *
@@ -223,6 +223,9 @@ def strip_state(lines):
 def main():
     ck = Check("C07", "proof")
     build_repo()
+    # generated guard lemmas: coq/Gen/Guards.v is re-extracted from the CURRENT source before the proofs are compiled
+    # (tools/build_model.sh -> gen_all.py runs the translator too; this call makes the dependency explicit)
+    gg = sh([sys.executable, os.path.join(VERIF, "tools", "gen_guards.py")], timeout=600)
     pr = ck.proofs()
     rng = ck.rng
     rounds = 6 if ck.thorough() else 1
@@ -326,8 +329,36 @@ def main():
     os.makedirs(OUT, exist_ok=True)
     open(os.path.join(OUT, "C07_summary.txt"), "w").write("\n".join(summary) + "\n")
     ck.cov["violation_groups"] = len(groups)
-    if not pr["ok"]:
-        ck.violation("proof.txt", pr["log"], "proof obligation(s) of Properties_C07.v no longer check: %s" % pr["failed"], no_input=not ck.violations)
+    # the generated guards, evaluated by the extracted model against the ranges of their roles
+    gj = {}
+    try:
+        gj = json.load(open(os.path.join(OUT, "guards.json")))
+    except Exception:
+        pass
+    gout = run_m("CASE g\nGUARDS\n", "1000") if gg.returncode == 0 else ""
+    gx = [l.split() for l in gout.splitlines() if l.startswith("GX ")]
+    ck.cov["generated_guards"] = dict(translator=("ok: " + gg.stdout.strip()) if gg.returncode == 0 else "FAILED: " + gg.stderr[-300:],
+                                      guards=len(gj.get("guards", [])), delegations=len(gj.get("delegations", [])), unguarded=gj.get("unguarded", []),
+                                      untranslated=gj.get("untranslated", []), unclassified=[(g["fn"], g["arg"]) for g in gj.get("guards", []) if g["role"] == "unknown"],
+                                      disagreements_on_boundary_grid=[" ".join(l[1:]) for l in gx[:12]],
+                                      functions_covered=sorted(set(g["fn"] for g in gj.get("guards", [])) | set(d[0] for d in gj.get("delegations", []))))
+    if not pr["ok"] or gx or gg.returncode != 0:
+        # name the guard(s) that no longer reject exactly the invalid indices, and look for a concrete failing call among the probes
+        weak = sorted(set((l[1], l[2]) for l in gx))
+        pubs = set(fn for fn, _ in weak) | set(d[0] for d in gj.get("delegations", []) if (d[2], d[3]) in weak)
+        hit = [(k, v) for k, v in sorted(groups.items()) if k[0] in pubs]
+        detail = "; ".join("%s.%s (%s): e.g. %s" % (fn, a, next(l[3] for l in gx if (l[1], l[2]) == (fn, a)), " ".join(next(l[4:] for l in gx if (l[1], l[2]) == (fn, a)))) for fn, a in weak)
+        extra_ = []
+        if gj.get("unguarded"): extra_.append("index arguments without a range check: %s" % gj["unguarded"])
+        if gj.get("untranslated"): extra_.append("range checks the translator cannot express: %s" % gj["untranslated"])
+        text = "proof obligation(s) of Properties_C07.v no longer check: %s%s%s" % (pr["failed"], (" -- generated guard(s) not exact: " + detail) if weak else "",
+                                                                                   (" -- " + "; ".join(extra_)) if extra_ else "")
+        if hit:
+            (fn, role, kind), items = hit[0]
+            ck.violation("proof.txt", items[0][3] + "# %s\n# concrete failing call found by the boundary probes: [%s / %s] %s `%s`: %s\n" % (text, fn, role, kind, items[0][1], items[0][2]),
+                         text + " -- concrete failing call: `%s` (%s)" % (items[0][1], items[0][2][:120]), match=dict(kind="proof"))
+        else:
+            ck.violation("proof.txt", pr["log"], text, no_input=not ck.violations, match=dict(kind="proof"))
     ck.cov["rule"] = ("boundary probes (-1, 0, n-1, n, n+1, n+m-1, n+m, INT_MAX, INT_MIN for every index argument; unknown / known / duplicate names; illegal "
                       "sense, lu, objsense, parameter ids and values; bases of wrong size, wrong basic count, garbage status) x lifecycle states "
                       "empty/loaded/solved/edited; each probe in a forked child of the ASan+UBSan build with DUMPALL (params, basis, all accessors, query dump) "
